@@ -106,6 +106,7 @@ package jet
 //@ func os.Stat
 //@   trusted os library
 //@   nopanic
+//@   ensures result1 == nil ==> result0 != nil
 //@ func os.Open
 //@   trusted os library
 //@   nopanic
